@@ -90,6 +90,9 @@ class SortableDict(col.MutableMapping):
 
             if index is not None:
                 # We are re-locating.
+                if (pos_key is not None) and (self.index(key) < index):
+                    # Removing the key shifts pos_key one place to the left.
+                    index -= 1
                 del self[key]
             else:
                 # We are updating
